@@ -12,13 +12,103 @@ def subst(e, mapping):
     return tuple(subst(x, mapping) for x in e)
 
 
+def closure_body(ctx, clo, args):
+    """return expression of closure value `clo` = ('closure', key, captured ops) applied to `args`
+    (captured variables and the arguments substituted); None if not available"""
+    if not (isinstance(clo, tuple) and clo and clo[0] == 'closure' and clo[1] in ctx.prog.fns):
+        return None
+    fn = ctx.prog.fns[clo[1]]
+    if not fn.has_body:
+        return None
+    fa = ctx.an.get(fn)
+    rets = list(dict.fromkeys(fa.def_value(0, b, k) for (b, k, part) in fa.defs().get(0, [])))
+    if len(rets) != 1:
+        return None
+    caps = clo[2]
+
+    def sub(e):
+        if not isinstance(e, tuple) or not e:
+            return e
+        # captured variable: field i of the closure environment (param 1, by value or by reference)
+        if e[0] == 'fld' and e[3].isdigit() and _is_env(e[1]):
+            i = int(e[3])
+            if i < len(caps):
+                return caps[i]
+        if e[0] == 'param' and e[1] >= 2 and e[1] - 2 < len(args):
+            return args[e[1] - 2]
+        return tuple(sub(x) for x in e)
+    return simp(sub(rets[0]))
+
+
+def _is_env(e):
+    while isinstance(e, tuple) and e and e[0] in ('deref', 'load', 'pick', 'refv'):
+        e = e[1]
+    return e in (('param', 1), ('local', 1))
+
+
+def simp(e):
+    """*(&p) -> p after substitution"""
+    if not isinstance(e, tuple) or not e:
+        return e
+    e = tuple(simp(x) for x in e)
+    if e[0] == 'deref' and isinstance(e[1], tuple) and e[1] and e[1][0] in ('ref', 'refv'):
+        return e[1][1]
+    if e[0] == 'load' and isinstance(e[1], tuple) and e[1] and e[1][0] == 'deref' and isinstance(e[1][1], tuple) and e[1][1] and e[1][1][0] in ('ref', 'refv'):
+        return e[1][1][1]
+    return e
+
+
+def payload(o, variant='Some', field='0'):
+    return ('pick', ('fld', ('var', o, variant), '', field))
+
+
+def expand_combinators(ctx, e):
+    """Option/Result combinators with closure arguments rewritten into phi/values:
+    map_or(o, d, f) -> phi(d, f(o.Some.0));  map(o, f) -> Some(f(payload)) | None;  unwrap_or(o, d) -> phi(payload, d)"""
+    if not isinstance(e, tuple) or not e:
+        return e
+    e = tuple(expand_combinators(ctx, x) if isinstance(x, tuple) else x for x in e)
+    if e[0] == 'call':
+        name = e[1]
+        a = e[2]
+        if name.endswith('Option::<T>::map_or') and len(a) == 3:
+            body = closure_body(ctx, a[2], (payload(a[0]),))
+            if body is not None:
+                return ('phi', (a[1], expand_combinators(ctx, body)))
+        if name.endswith('Option::<T>::map') and len(a) == 2:
+            body = closure_body(ctx, a[1], (payload(a[0]),))
+            if body is not None:
+                return ('phi', (('agg', 'core::option::Option', 'Some', (('0', expand_combinators(ctx, body)),)), ('agg', 'core::option::Option', 'None', ())))
+        if name.endswith('Option::<T>::unwrap_or') and len(a) == 2:
+            return ('phi', (payload(a[0]), a[1]))
+    return e
+
+
 def expand_calls(ctx, e, depth=2, skip=()):
     """replace calls to workspace functions that have a single non-constant return value by that
     value (parameters substituted).  Used so that a computation moved into a helper is still seen."""
     if depth <= 0 or not isinstance(e, tuple) or not e:
         return e
+    if e[0] == 'call' and e[1].startswith('core::option::Option'):
+        e2 = expand_combinators(ctx, e)
+        if e2 is not e and e2[0] != 'call':
+            return expand_calls(ctx, e2, depth, skip)
+    key = None
     if e[0] == 'call' and len(e) > 5 and e[5] in ctx.prog.fns:
-        fn = ctx.prog.fns[e[5]]
+        key = e[5]
+    elif e[0] == 'call' and len(e) == 3 and isinstance(e[1], str):
+        # site-stripped call (inside a path fact): find the function by its path
+        idx = getattr(ctx.prog, '_by_path', None)
+        if idx is None:
+            idx = {}
+            for f in ctx.prog.fns.values():
+                idx.setdefault(f.path, []).append(f.key)
+            ctx.prog._by_path = idx
+        c = idx.get(e[1], [])
+        if len(c) == 1:
+            key = c[0]
+    if key is not None:
+        fn = ctx.prog.fns[key]
         args = tuple(expand_calls(ctx, a, depth, skip) for a in e[2])
         if fn.has_body and fn.crate in ('maybenot', 'maybenot_simulator', 'maybenot_ffi') and fn.name not in skip and fn.vis != 'Public':
             fa = ctx.an.get(fn)
